@@ -46,7 +46,7 @@ def plan(tier, seed):
 def conclude(agg):
     c = agg['counters']
     r = []
-    for k in ('roundtrip_bp', 'mvarray_strings', 'mv_str_roundtrip', 'pack_roundtrip', 'popcount', 'alias_entries', 'padding_lanes_checked', 'popcount_large_arrays', 'result_mutated_then_repeated'):
+    for k in ('roundtrip_bp', 'mvarray_strings', 'mv_str_roundtrip', 'pack_roundtrip', 'popcount', 'alias_entries', 'padding_lanes_checked', 'popcount_large_arrays', 'result_mutated_then_repeated', 'interpret_result_edited'):
         if c.get(k, 0) == 0:
             r.append(f'monitor counter {k} is zero')
     if len(agg['sets'].get('dtypes', ())) < 8:
@@ -135,6 +135,23 @@ def one(ctx, rng, nrng):
         exp = np.array(vals, dtype=np.uint8).T if P > 1 else np.array(vals[0], dtype=np.uint8)   # (S, P) or (S,)
         with ctx.guard('mvarray-strings', case):
             if kind == 'strings':
+                # interpret() hands out plain Python lists; a caller may edit them (fill don't-cares, ...) - later conversions of the same text
+                # must still spell the text, and two equal strings in one call must give independent rows
+                if hasattr(L, 'interpret'):
+                    pre = L.interpret(strs[0])
+                    if isinstance(pre, list):
+                        for i_ in range(len(pre)):
+                            pre[i_] = (int(pre[i_]) + 1 + i_) % 8 if not isinstance(pre[i_], list) else pre[i_]
+                        ctx.count('interpret_result_edited')
+                    rows = L.interpret([strs[0], strs[0]])
+                    if isinstance(rows, list) and len(rows) == 2 and isinstance(rows[0], list) and len(rows[0]):
+                        keep = list(rows[1])
+                        rows[0][0] = (int(rows[0][0]) + 3) % 8
+                        if list(rows[1]) != keep:
+                            ctx.violation('mvarray-strings', f'interpret([t, t]) with t={strs[0]!r}: writing to the first row changed the second one', case)
+                    again = L.interpret(strs[0])
+                    if [int(x) for x in again] != vals[0]:
+                        ctx.violation('mvarray-strings', f'interpret({strs[0]!r}) = {list(again)} after an earlier result was edited in place, the text spells {vals[0]}', case)
                 got = L.mvarray(*strs)
                 if got.flags.writeable and got.shape == exp.shape and np.array_equal(got, exp):
                     got[...] ^= 7                      # a caller may modify what it got (the library's own STIL code does):
